@@ -142,11 +142,38 @@ func main() {
 		if !keyFound {
 			lib.Fatalf("no call on the cluster's loadbalancer with a key found in Pop or the methods it calls: shape unknown")
 		}
+		// 3. do the dispatch policies have cursors of their own? MatchAttributes sets the same field of ITS picker (in the
+		// literal or by an assignment) to something that is not a constant — something that depends on the matched policy
+		policyOwn := false
+		if ma := lib.FuncDecl(f, "ClusterInfo", "MatchAttributes"); ma != nil && ma.Body != nil && scopeField != "" {
+			ast.Inspect(ma.Body, func(n ast.Node) bool {
+				switch x := n.(type) {
+				case *ast.KeyValueExpr:
+					if sel(x.Key) == scopeField {
+						if _, isLit := x.Value.(*ast.BasicLit); !isLit {
+							policyOwn = true
+						}
+					}
+				case *ast.AssignStmt:
+					for i, l := range x.Lhs {
+						if se, ok := l.(*ast.SelectorExpr); ok && se.Sel.Name == scopeField && i < len(x.Rhs) {
+							if _, isLit := x.Rhs[i].(*ast.BasicLit); !isLit {
+								policyOwn = true
+							}
+						}
+					}
+				}
+				return true
+			})
+		} else if ma == nil {
+			lib.Fatalf("ClusterInfo.MatchAttributes not found in %s", file)
+		}
 		var b strings.Builder
 		b.WriteString("namespace KG.Gen.C14\n")
 		b.WriteString("/-! " + file + ": the cursors `ClusterInfo.PickOne` uses -/\n")
 		fmt.Fprintf(&b, "/-- PickOne sets a string field of its picker (%q) that is part of the cursor key: it keeps its own round-robin cursors -/\n", scopeField)
 		fmt.Fprintf(&b, "def pickOneOwnCursors : Bool := %v\n", scopeField != "" && keyUsesScope)
+		fmt.Fprintf(&b, "/-- MatchAttributes gives the picker of a dispatch policy a cursor scope that depends on the policy: every policy has its own cursors -/\ndef policyOwnCursors : Bool := %v\n", policyOwn)
 		b.WriteString("end KG.Gen.C14\n")
 		g.Emit("C14.lean", b.String())
 	})
